@@ -41,16 +41,21 @@ GInitChain(s) ==
                !.acl = AclOwner0, !.daoOwner = DaoOwner0]
 
 \* x/gov/keeper/acl.go VerifyACL: the ACL's owner of the key must equal the sender
-\* (an unlisted key has the nil owner, which equals only an empty sender)
+\* (an unlisted key has the nil owner, which equals only an empty sender; owner 0 = unlisted).
+\* A key string with an extra path segment ("auth/TxSigLimit/x", a.sfx = TRUE) is looked up in the
+\* ACL as the whole string - which no ACL lists - although the store would be addressed by its
+\* first two segments.
 Owner(s, key) == IF key \in Keys THEN s.acl[key] ELSE IF key = K + 1 THEN s.aclExtra ELSE 0
+OwnerOf(s, a) == IF a.sfx THEN 0 ELSE Owner(s, a.pk)
 
 \* keeper/subspace.go ModifyParam.  key K+1 stands for "pos/NoSuch" (known subspace, no such
 \* parameter): Subspace.Update panics "Parameter not registered", runTx recovers -> rejected.
 \* A value that does not parse (malformed JSON, wrong type) is IGNORED: result OK, nothing changes.
 ModifyParam(s, a) ==
-  IF a.from = 0 \/ Owner(s, a.pk) # a.from THEN [s |-> s, ok |-> FALSE]
+  IF a.from = 0 \/ OwnerOf(s, a) # a.from THEN [s |-> s, ok |-> FALSE]
   ELSE IF a.pk = K + 1 THEN [s |-> s, ok |-> FALSE]
-  ELSE IF a.val = "malformed" \/ a.val = "wrongtype" THEN [s |-> s, ok |-> TRUE]
+  \* "partial": well-formed JSON whose leading fields fit the parameter's type and a later one does not
+  ELSE IF a.val \in {"malformed", "wrongtype", "partial"} THEN [s |-> s, ok |-> TRUE]
   ELSE IF a.pk = IAcl THEN
          LET v == a.aclv IN [s |-> [s EXCEPT !.acl = v.owners, !.aclExtra = v.extra], ok |-> TRUE]
   ELSE IF a.pk = IDao THEN [s |-> [s EXCEPT !.daoOwner = a.id], ok |-> TRUE]
@@ -91,12 +96,14 @@ GStep(s, a) ==
     [] a.a = "BeginBlock" -> [s EXCEPT !.lastRes = "n/a"]
     [] a.a = "Tx" -> GDeliver(s, a)
 
-T(k, f) == [a |-> "Tx", kind |-> k, from |-> f, to |-> 0, amt |-> 0, pk |-> 0, val |-> "", idx |-> 0, id |-> 0,
+T(k, f) == [a |-> "Tx", kind |-> k, from |-> f, to |-> 0, amt |-> 0, pk |-> 0, sfx |-> FALSE, val |-> "", idx |-> 0, id |-> 0,
             aclv |-> [owners |-> << >>, extra |-> 0], fee |-> GovFee]
 
 GTxChoices ==
   {[T("changeparam", f) EXCEPT !.pk = k, !.val = v, !.idx = IF v = "v1" THEN 1 ELSE IF v = "v2" THEN 2 ELSE 0] :
       f \in Users, k \in (Keys \ {IAcl, IDao, IUpg}) \cup {K + 1}, v \in {"v1", "v2", "malformed", "wrongtype"}}
+  \cup {[T("changeparam", f) EXCEPT !.pk = k, !.sfx = TRUE, !.val = "v1", !.idx = 1] : f \in Users, k \in {2, 5}}
+  \cup {[T("changeparam", f) EXCEPT !.pk = k, !.val = "partial"] : f \in Users, k \in {3, IUpg}}
   \cup {[T("changeparam", f) EXCEPT !.pk = IAcl, !.val = "acl", !.aclv = v] : f \in Users, v \in AclVariants}
   \cup {[T("changeparam", f) EXCEPT !.pk = IAcl, !.val = w] : f \in Users, w \in {"malformed"}}
   \cup {[T("changeparam", f) EXCEPT !.pk = IDao, !.val = "id", !.id = i] : f \in Users, i \in Users}
